@@ -61,6 +61,9 @@ class Project(object):
         else:
             for package in sys.modules:
                 modules.add(package.partition('.')[0])
+            # builtin modules have no file to find: importable whether
+            # something has loaded them already or not
+            modules.update(sys.builtin_module_names)
 
         if root:
             dirs = self._package_dirs(root)
